@@ -119,18 +119,50 @@ def coq_make(targets, timeout=1500):
     return rc == 0, out
 
 
-def coq_hygiene():
-    """no Admitted/admit/Axiom/... anywhere in the development (comments included: keep them clean)"""
+REQ_RE = re.compile(r"From\s+GmsmVerif\s+Require\s+(?:Import\s+|Export\s+)?([^.]*(?:\.[A-Za-z_][^.\s]*)*[^.]*)\.(?:\s|$)", re.S)
+
+
+def coq_deps(prop_file):
+    """the .v files (relative to coq/) that prop_file depends on, transitively (GmsmVerif modules only)"""
+    seen, todo = set(), [prop_file]
+    while todo:
+        f = todo.pop()
+        if f in seen:
+            continue
+        seen.add(f)
+        path = os.path.join(COQ, f)
+        if not os.path.exists(path):
+            continue
+        with open(path, errors="replace") as fh:
+            text = re.sub(r"\(\*.*?\*\)", "", fh.read(), flags=re.S)
+        names = []
+        for m in re.finditer(r"From\s+GmsmVerif\s+Require\s+(?:Import|Export)?\s*((?:[A-Za-z_][A-Za-z0-9_']*(?:\.[A-Za-z_][A-Za-z0-9_']*)*\s*)+)\.", text):
+            names += m.group(1).split()
+        for m in re.finditer(r"Require\s+(?:Import|Export)?\s*((?:GmsmVerif\.[A-Za-z0-9_'.]+\s*)+)\.", text):
+            names += [n[len("GmsmVerif."):] for n in m.group(1).split()]
+        for n in names:
+            todo.append(n.replace(".", "/") + ".v")
+    return sorted(seen)
+
+
+def coq_hygiene(files=None):
+    """no Admitted/admit/Axiom/... in the given files (default: the whole development); comments are
+    scanned too, so that a plain grep over the development stays clean"""
     bad = []
-    for d, _, fs in os.walk(COQ):
-        for f in fs:
-            if not f.endswith(".v"):
-                continue
-            p = os.path.join(d, f)
-            with open(p, errors="replace") as fh:
-                for i, line in enumerate(fh, 1):
-                    if HYGIENE_RE.search(line):
-                        bad.append("%s:%d: %s" % (os.path.relpath(p, ROOT), i, line.strip()[:120]))
+    if files is None:
+        files = []
+        for d, _, fs in os.walk(COQ):
+            for f in fs:
+                if f.endswith(".v"):
+                    files.append(os.path.relpath(os.path.join(d, f), COQ))
+    for rel in sorted(files):
+        p = os.path.join(COQ, rel)
+        if not os.path.exists(p):
+            continue
+        with open(p, errors="replace") as fh:
+            for i, line in enumerate(fh, 1):
+                if HYGIENE_RE.search(line):
+                    bad.append("coq/%s:%d: %s" % (rel, i, line.strip()[:120]))
     return bad
 
 
@@ -366,7 +398,7 @@ def check(pid, tier, seed):
             thm_status.append({"name": t, "status": "not-checked", "assumptions": None})
         problems.append(("unproved", "Coq build of %s failed at %s" % (m.PROPS, where),
                          {"kind": "proof", "what": where or m.PROPS, "output": out[-3000:]}))
-    bad = coq_hygiene()
+    bad = coq_hygiene(coq_deps(m.PROPS))   # the files this property's theorems depend on
     if bad:
         proofs_ok = False
         problems.append(("unproved", "hygiene gate: forbidden vernacular in the development",
